@@ -47,6 +47,11 @@ def grid_cases(rng, tier):
     one('grid-two-in-one-step', bundle_type(2, SpacerGrid=dict(
         g, axial_positions=[0.2001, 0.2003, 0.41])),
         setup={'axial_mesh_size': 0.008})
+    one('grid-cdd-uncapped', bundle_type(3, SpacerGrid=dict(
+        corr='CDD', axial_positions=[0.12, 0.33], solidity=0.3)),
+        gap_model='flow')
+    one('grid-cdd-capped', bundle_type(2, SpacerGrid=dict(
+        corr='CDD', axial_positions=[0.2, 0.41], solidity=0.8)))
     one('grid-reh', bundle_type(3, SpacerGrid=dict(
         corr='REH', axial_positions=[0.12, 0.33])), gap_model='flow')
     t = add_regions(bundle_type(3, SpacerGrid=dict(
